@@ -180,10 +180,18 @@ def _shard(args):
     try:
         mod = importlib.import_module(prop.lower())
         ctx = core.Ctx(prop, tier, seed + 7919 * shard, scale, hot)
+        known = core.load_known()
+
+        def matcher(f):
+            k = match_known(f, known, prop, mod)
+            return k['id'] if k else None
+        ctx.known_matcher = matcher
         mod.generate(ctx, shard, nshards)
         mism, stats = core.compare_cases(ctx)
         return {'ok': True, 'mism': mism[:200], 'n_mism': len(mism), 'stats': stats, 'pred_fail': ctx.pred_fail[:500],
-                'n_pred_fail': len(ctx.pred_fail) + getattr(ctx, 'pred_fail_overflow', 0),
+                'n_pred_fail': len(ctx.pred_fail) + getattr(ctx, 'pred_fail_overflow', 0) +
+                sum(max(0, v - 3) for v in ctx.known_counts.values()),
+                'known_counts': ctx.known_counts, 'overflow': getattr(ctx, 'pred_fail_overflow', 0),
                 'pred_count': ctx.pred_count, 'pred_classes': ctx.pred_classes, 'case_classes': ctx.case_classes,
                 'n_cases': len(ctx.cases), 'samples': ctx.samples, 'max_dev': ctx.max_dev,
                 'exhaustive': ctx.exhaustive, 'notes': ctx.notes,
@@ -200,7 +208,7 @@ def run_harness(prop, tier, seed, scale, hot):
         parts = pool.map(_shard, args)
     agg = {'mism': [], 'n_mism': 0, 'pred_fail': [], 'n_pred_fail': 0, 'pred_count': 0, 'pred_classes': {},
            'case_classes': {}, 'n_cases': 0, 'samples': [], 'max_dev': {}, 'F_lines': 0, 'Q_lines': 0,
-           'exhaustive': False, 'errors': [], 'distinct': 0, 'notes': []}
+           'exhaustive': False, 'errors': [], 'distinct': 0, 'notes': [], 'known_counts': {}, 'overflow': 0}
     for p in parts:
         if not p['ok']:
             agg['errors'].append(p['error'])
@@ -209,6 +217,9 @@ def run_harness(prop, tier, seed, scale, hot):
         agg['n_mism'] += p['n_mism']
         agg['pred_fail'] += p['pred_fail']
         agg['n_pred_fail'] += p['n_pred_fail']
+        agg['overflow'] += p['overflow']
+        for k, v in p['known_counts'].items():
+            agg['known_counts'][k] = agg['known_counts'].get(k, 0) + v
         agg['pred_count'] += p['pred_count']
         agg['n_cases'] += p['n_cases']
         agg['distinct'] += p['distinct']
@@ -305,9 +316,15 @@ def main():
     for f in agg['pred_fail']:
         k = match_known(f, known, prop, mod)
         if k:
-            known_hits.setdefault(k['id'], [k, 0])[1] += 1
+            known_hits.setdefault(k['id'], [k, 0])
         else:
             new_fail.append(f)
+    for kid, cnt in agg['known_counts'].items():
+        for k in known:
+            if k.get('id') == kid and k.get('property') == prop:
+                known_hits.setdefault(kid, [k, 0])[1] = cnt
+    if agg['overflow']:
+        log('[I] note: %d failures beyond the per-shard retention limit were counted but not inspected' % agg['overflow'])
     broken = []
     if not lean['build_ok']:
         broken.append({'theorems': lean['failed'], 'log': lean['log'][-1500:]})
